@@ -3,6 +3,8 @@
 package expr
 
 import (
+	"math"
+
 	dtpb "github.com/google/fhir/go/proto/google/fhir/proto/r4/core/datatypes_go_proto"
 	"github.com/shopspring/decimal"
 	"github.com/verily-src/fhirpath-go/fhirpath/internal/reflection"
@@ -11,17 +13,31 @@ import (
 )
 
 // verifOperand draws an operand expression of an arbitrary form with boundary-rich symbolic payloads.
-func verifOperand(label string) Expression {
+func verifOperand(label string) Expression { return verifOperandN(label, false) }
+
+// verifInt32 is any int32, or - when narrow - one of a menu of concrete values: the quick tier uses it for the
+// divisor of '/', whose rounding branches are non-linear in two symbolic operands (the dividend stays symbolic).
+func verifInt32(label string, narrow bool) int32 {
+	if !narrow {
+		return verifrt.NondetInt32(label)
+	}
+	return []int32{0, 1, -1, 3, -7, 1000, math.MinInt32, math.MaxInt32}[verifrt.Choose(label+".menu", 8)]
+}
+
+func verifOperandN(label string, narrow bool) Expression {
 	switch verifrt.Choose(label+".form", 11) {
 	case 0:
 		return &LiteralExpression{}
 	case 1:
-		return verifLit(system.Integer(verifrt.NondetInt32(label + ".i")))
+		return verifLit(system.Integer(verifInt32(label+".i", narrow)))
 	case 2:
 		return verifLit(system.String(verifrt.NondetString(label+".s", 2)))
 	case 3:
 		return verifLit(system.Boolean(verifrt.NondetBool(label + ".b")))
 	case 4:
+		if narrow {
+			return verifLit(system.Decimal(decimal.New([]int64{0, 1, -3, 25, 300}[verifrt.Choose(label+".dmenu", 5)], int32(-verifrt.Choose(label+".scale", 3)))))
+		}
 		return verifLit(system.Decimal(decimal.New(int64(verifrt.NondetIntRange(label+".dm", -300, 300)), int32(-verifrt.Choose(label+".scale", 3)))))
 	case 5:
 		q, err := system.ParseQuantity([]string{"1", "-2.5", "0"}[verifrt.Choose(label+".qv", 3)], []string{"mg", "", "days", "hour"}[verifrt.Choose(label+".qu", 4)])
@@ -36,7 +52,7 @@ func verifOperand(label string) Expression {
 		p := []dtpb.Time_Precision{dtpb.Time_SECOND, dtpb.Time_MILLISECOND}[verifrt.Choose(label+".tp", 2)]
 		return verifLit(system.TimeFromProto(&dtpb.Time{ValueUs: 1000 * int64(verifrt.NondetIntRange(label+".t.ms", 0, 86399999)), Precision: p}))
 	case 8:
-		return verifConst(system.Collection{&dtpb.Integer{Value: verifrt.NondetInt32(label + ".fi")}})
+		return verifConst(system.Collection{&dtpb.Integer{Value: verifInt32(label+".fi", narrow)}})
 	case 9:
 		return verifConst(system.Collection{&dtpb.HumanName{Family: &dtpb.String{Value: verifrt.NondetString(label+".fam", 1)}}})
 	default:
@@ -47,11 +63,19 @@ func verifOperand(label string) Expression {
 // C01: every operator node with operands of every form returns a collection or an error - no run-time panic.
 func verifOperatorSweep(node int) {
 	ctx := &Context{ExternalConstants: map[string]any{}}
-	l, r := verifOperand("l"), verifOperand("r")
+	var l, r Expression
+	op := 0
+	if node == 0 {
+		op = verifrt.Choose("arith", 6)
+		narrow := op == 3 && !verifrt.Thorough() // '/'
+		l, r = verifOperand("l"), verifOperandN("r", narrow)
+	} else {
+		l, r = verifOperand("l"), verifOperand("r")
+	}
 	var e Expression
 	switch node {
 	case 0:
-		e = &ArithmeticExpression{Left: l, Right: r, Op: verifArithOps[verifrt.Choose("arith", 6)]}
+		e = &ArithmeticExpression{Left: l, Right: r, Op: verifArithOps[op]}
 	case 1:
 		e = &ComparisonExpression{Left: l, Right: r, Op: []Operator{Lt, Gt, Lte, Gte}[verifrt.Choose("cmp", 4)]}
 	case 2:
